@@ -128,6 +128,68 @@ theorem check_sound_partial_force (i : Inst) (hf : i.force = true) {cs : List Na
   rw [check_eq, hf] at hc
   exact ⟨cs, rfl, (checkActs_cons_iff i.h cs hlen).mp hc⟩
 
+/-- acceptance of `cs ++ [0]` of full width ⇒ `cs` feasible (the depot written at the end) -/
+theorem feasible_of_checkActs_snoc (h : Nat) (cs : List Nat) (hlen : cs.length = 2 * h)
+    (hc : checkActs (cs ++ [0]) = true) : Spec.Pdp.Feasible h cs := by
+  obtain ⟨hp, _, hpr⟩ := (checkActs_iff_odd h (cs ++ [0]) (by simp [hlen])).mp hc
+  rw [range_succ_eq] at hp
+  have hmid : (cs ++ [0]).Perm (0 :: cs) := by
+    have := List.perm_middle (a := 0) (l₁ := cs) (l₂ := [])
+    simp only [List.append_nil] at this
+    exact this
+  have hp' : (0 :: cs).Perm (0 :: List.range' 1 (2 * h)) := hmid.symm.trans hp
+  obtain ⟨hr, ho⟩ := (once_iff_perm (2 * h) cs).mpr hp'.cons_inv
+  refine ⟨hr, ho, ?_⟩
+  have hmem : ∀ v, 1 ≤ v → v ≤ 2 * h → v ∈ cs := by
+    intro v hv1 hv2
+    have := ho v hv1 hv2
+    exact List.count_pos_iff.mp (by omega)
+  intro p hp1 hp2
+  have := hpr (p - 1) (by omega)
+  have e1 : 1 + (p - 1) = p := by omega
+  have e2 : h + 1 + (p - 1) = p + h := by omega
+  rw [e1, e2, List.idxOf_append, List.idxOf_append, if_pos (hmem p hp1 (by omega)),
+    if_pos (hmem (p + h) (by omega) (by omega))] at this
+  exact this
+
+/-- **C06 (PDP, forced start), soundness for full-width action lists**: an accepted list of width
+`n + 1` is a feasible closed depot tour — the depot first (what the mask produces) or last (the same
+closed walk), and a feasible customer sequence in between. -/
+theorem check_sound_partial_force_tour (i : Inst) (hf : i.force = true) {as : List Nat}
+    (hlen : as.length = i.n + 1) (hc : check i as = true) : Spec.Pdp.FeasibleTour i.h as := by
+  rw [check_eq, hf] at hc
+  simp only [if_true] at hc
+  have hlen' : as.length = 2 * i.h + 1 := by simpa [Inst.n] using hlen
+  obtain ⟨hp, hmid, _⟩ := (checkActs_iff_odd i.h as hlen').mp hc
+  have h0 : 0 ∈ as := (hp.mem_iff).mpr (by simp)
+  cases as with
+  | nil => cases h0
+  | cons a rest =>
+    have hrl : rest.length = 2 * i.h := by simpa using hlen'
+    by_cases ha : a = 0
+    · subst ha
+      exact ⟨rest, Or.inl rfl, (checkActs_cons_iff i.h rest hrl).mp hc⟩
+    · -- the depot is in `rest`, not in its `dropLast`: it is the last element
+      have h0r : 0 ∈ rest := by
+        rcases List.mem_cons.mp h0 with hh | hh
+        · exact absurd hh.symm ha
+        · exact hh
+      simp only [List.drop_succ_cons, List.drop_zero] at hmid
+      rcases List.eq_nil_or_concat rest with hnil | ⟨ys, b, hb⟩
+      · subst hnil; cases h0r
+      · simp only [List.concat_eq_append] at hb
+        subst hb
+        rw [List.dropLast_concat] at hmid
+        have hb0 : b = 0 := by
+          rcases List.mem_append.mp h0r with hh | hh
+          · exact absurd rfl (hmid 0 hh)
+          · have : 0 = b := by simpa using hh
+            exact this.symm
+        subst hb0
+        refine ⟨a :: ys, Or.inr (by simp), ?_⟩
+        apply feasible_of_checkActs_snoc i.h (a :: ys) (by simpa using hrl)
+        simpa using hc
+
 /-- Non-vacuity. -/
 example : check ⟨2, false, fun _ _ => 0⟩ [2, 1, 4, 3] = true :=
   check_complete _ rfl ((Spec.Pdp.feasible_iff 2 _).mp (by decide))
